@@ -578,7 +578,7 @@ Theorem s_run_complete (A : automaton N cpredicate) ids h a fuel ms p :
   exists L, In (p, SBound a L) ms.
 Proof.
   intros HWF R Ha Hacc Hkeys.
-  destruct (run_trace string_dom string_dom_eq A h fuel ms R) as [T [T1 [T2 [T3 [T4 T5]]]]].
+  destruct (run_trace string_dom string_dom_eq A h fuel ms R) as [T [T1 [T2 [T3 [T4 [T5 _]]]]]].
   assert (Twf : forall x, In x T -> s_wfm (snd x)).
   { apply (T5 (fun x => s_wfm (snd x))); [|exact I].
     intros x ys y _ [st [G NL]] Hy. destruct (next_legal_retained _ _ _ _ _ _ NL Hy) as [m1 Rm].
